@@ -12,9 +12,11 @@ CONSTANTS
   GMax = 2
   MaxPush = 3
   InitConn <- NoConn
-  NoResetOnDrop = TRUE
+  NoResetOnDrop = FALSE
   BugStartPlus2 = FALSE
   BugNoFallback = FALSE
+  LazyRunner = FALSE
+  NoRunnerStart = FALSE
   BugIgnoreBelowReq = FALSE
   Depth = 30
 INVARIANT Emit
